@@ -1,9 +1,9 @@
 (* Proofs/C01Statements.v -- the lemmas Props/C01.v closes its theorems with (`exact <lemma>`), assembled from
-   Proofs/CommitProofs.v, CommitGenProofs.v, CommitMetaProofs.v, CommitRetryProofs.v, CommitLateProofs.v. *)
+   Proofs/CommitProofs.v, CommitGenProofs.v, CommitMetaProofs.v, CommitRetryProofs.v.  (The statements over the failing-write machine -- refused-although-applied
+   writes, the settle step -- and the lock layer without the fork hypothesis are in Proofs/C01ResentProofs.v.) *)
 From Coq Require Import ZArith List Bool Arith Lia Sorted.
 Require Import DS.Model.CommitBase DS.Gen.GenCommit DS.Model.Commit DS.Proofs.CommitGenProofs DS.Proofs.CommitProofs.
 Require Import DS.Model.CommitMeta DS.Proofs.CommitMetaProofs DS.Proofs.CommitRetryProofs.
-Require Import DS.Model.CommitLate DS.Proofs.CommitLateProofs.
 Require DS.Model.Meta DS.Model.MetaSpec.
 Import ListNotations.
 Open Scope Z_scope.
@@ -94,11 +94,3 @@ Proof.
   intros c m0 kind evs a. exact (conflict_reported_when_exhausted c m0 kind (fun _ => gen_max_retries) evs a C).
 Qed.
 
-(* "a refused conditional write was not applied": with the assumption the statement holds, without it it is false *)
-Lemma c01_conflict_not_reflected_partial : forall c m0 kind mr evs, sound c -> no_late evs ->
-  let w := late_run c (init_world m0 kind mr) evs in
-  forall a, a_pc (w_actors w a) = PDone Conflict -> ~ In a (map snd (w_hist w)).
-Proof. exact conflict_not_reflected_partial. Qed.
-
-Lemma c01_conflict_not_reflected_refuted : ~ conflict_not_reflected_with_resent_writes.
-Proof. exact conflict_not_reflected_refuted. Qed.
